@@ -6,9 +6,23 @@
 // which is also the precondition (its own assert) of wlearner::scale for the factor vector gboost builds from that cluster
 // (src/gboost/model.cpp: scale_function_t has cluster.groups() dimensions, best_wlearner->scale(gstate.x() * ratio)).
 // usage: C10_replay <N> <K>     exit 1: groups() != tables().size<0>() (violation reproduced), exit 0 otherwise
+//
+// second scenario (targets stump_fit_sweep / hinge_fit_sweep, "a candidate threshold is evaluated only between two different
+// consecutive sorted feature values; the reported score is the score of the partition the predictor uses"):
+//   C10_replay ties <stump|hinge>
+// one scalar feature with TIED values {1,1,1,1,2,2,2,2,3,3} and residuals that vary inside the tied groups; the real learner is
+// fitted with the RSS criterion and the clause is evaluated natively: the stored threshold must lie strictly between two
+// different consecutive feature values a < b (a < threshold <= b), and the RSS of the learner's own predictions must be the RSS it returned.
+// `ties <learner> adjacent` uses the consecutive doubles 1, 1 + ulp, 1 + 2 ulp instead (the mid-point of two adjacent doubles rounds onto one of them).
+//   exit 1: violated, exit 0 otherwise
 #include <nano/dataset.h>
 #include <nano/generator/elemwise_identity.h>
+#include <nano/wlearner/criterion.h>
 #include <nano/wlearner/dtree.h>
+#include <nano/wlearner/hinge.h>
+#include <nano/wlearner/stump.h>
+#include <cmath>
+#include <cstring>
 #include <cstdio>
 #include <cstdlib>
 using namespace nano;
@@ -45,8 +59,112 @@ private:
     tensor_size_t m_classes{0};
 };
 
+class ties_datasource_t final : public datasource_t
+{
+public:
+    ties_datasource_t()
+        : datasource_t("replay-ties")
+    {
+    }
+
+    rdatasource_t clone() const override { return std::make_unique<ties_datasource_t>(*this); }
+
+    static constexpr tensor_size_t N = 10;
+
+    // ties: x = {1,1,1,1,2,2,2,2,3,3};  adjacent (third argument): the three values are consecutive doubles 1, 1+ulp, 1+2ulp
+    static inline bool adjacent = false;
+
+    static scalar_t value(const tensor_size_t sample)
+    {
+        const auto group = sample < 4 ? 0 : (sample < 8 ? 1 : 2);
+        if (!adjacent)
+        {
+            return 1.0 + group;
+        }
+        auto v = 1.0;
+        for (int k = 0; k < group; ++k)
+        {
+            v = std::nextafter(v, 2.0);
+        }
+        return v;
+    }
+
+private:
+    void do_load() override
+    {
+        resize(N, features_t{feature_t{"x"}.scalar(feature_type::float64), feature_t{"y"}.scalar(feature_type::float64)}, 1U);
+        for (tensor_size_t sample = 0; sample < N; ++sample)
+        {
+            set(sample, 0, value(sample));
+            set(sample, 1, 0.0);
+        }
+    }
+};
+
+template <class twlearner>
+static int ties_scenario(const char* name, scalar_t (*threshold_of)(const twlearner&))
+{
+    auto datasource = ties_datasource_t{};
+    datasource.load();
+    auto dataset = dataset_t{datasource, 1U};
+    dataset.add<scalar_identity_generator_t>();
+
+    const auto     N           = ties_datasource_t::N;
+    const scalar_t residuals[] = {-2.1, -1.9, -2.2, -1.8, -1.0, -1.1, +0.1, -0.1, 0.2, -0.2};
+    auto           samples     = indices_t{N};
+    auto           gradients   = tensor4d_t{make_dims(N, 1, 1, 1)};
+    for (tensor_size_t i = 0; i < N; ++i)
+    {
+        samples(i)   = i;
+        gradients(i) = -residuals[i];
+    }
+
+    auto wlearner                             = twlearner{};
+    wlearner.parameter("wlearner::criterion") = wlearner_criterion::rss;
+    const auto fit_rss                        = wlearner.fit(dataset, samples, gradients);
+    if (fit_rss == wlearner_t::no_fit_score())
+    {
+        std::printf("%s: no fit\n", name);
+        return 0;
+    }
+    const auto threshold = threshold_of(wlearner);
+
+    auto on_value = false;
+    for (tensor_size_t i = 0; i < N; ++i)
+    {
+        on_value = on_value || ties_datasource_t::value(i) == threshold;
+    }
+    const auto v0 = ties_datasource_t::value(0), v1 = ties_datasource_t::value(4), v2 = ties_datasource_t::value(8);
+    // usable threshold: `value < threshold` cuts between two different consecutive values a < b, i.e. a < threshold <= b
+    const auto between = (v0 < threshold && threshold <= v1) || (v1 < threshold && threshold <= v2);
+
+    const auto outputs     = wlearner.predict(dataset, samples);
+    auto       predict_rss = 0.0;
+    for (tensor_size_t i = 0; i < N; ++i)
+    {
+        const auto delta = residuals[i] - outputs(i);
+        predict_rss += delta * delta;
+    }
+    const auto same_rss = std::fabs(predict_rss - fit_rss) <= 1e-9 * (1.0 + std::fabs(fit_rss));
+
+    std::printf("%s fitted on x = {a,a,a,a,b,b,b,b,c,c} with (a,b,c) = (%.17g, %.17g, %.17g): threshold=%.17g (%s), returned RSS=%.12g, RSS of its predictions=%.12g (%s)\n", name,
+                v0, v1, v2, threshold, between ? (on_value ? "cuts between two different values, on the upper one" : "between two different values") : (on_value ? "ON a feature value it should separate from the next" : "outside"),
+                fit_rss, predict_rss, same_rss ? "reproduced" : "NOT reproduced");
+    return (!between || !same_rss) ? 1 : 0;
+}
+
 int main(int argc, char* argv[])
 {
+    if (argc > 2 && std::strcmp(argv[1], "ties") == 0)
+    {
+        ties_datasource_t::adjacent = argc > 3 && std::strcmp(argv[3], "adjacent") == 0;
+        if (std::strcmp(argv[2], "hinge") == 0)
+        {
+            return ties_scenario<hinge_wlearner_t>("hinge", [](const hinge_wlearner_t& w) { return w.threshold(); });
+        }
+        return ties_scenario<stump_wlearner_t>("stump", [](const stump_wlearner_t& w) { return w.threshold(); });
+    }
+
     const auto N = static_cast<tensor_size_t>(argc > 1 ? std::atol(argv[1]) : 40);
     const auto K = static_cast<tensor_size_t>(argc > 2 ? std::atol(argv[2]) : 3);
 
